@@ -39,6 +39,10 @@ def run(check: Check):
   _model_step(check)
   _evaluate_model(check)
   _model_evaluator(check)
+  # the average-loss evaluators of models.py are the same kind of batch-partitioned statistic: empty / fully masked input -> 0
+  from fjsa.props import c06
+  c06._average_loss(check)
+  c06._finalize(check)
   # type agreement
   n = 0
   for ci in mr.metric_classes(repo):
